@@ -362,7 +362,7 @@ prop(
     level="other",
     design_ref="DESIGN.md section 3, C13",
     groups=[(["./plugin/action/mask"], r"^\(\*Mask\)\.(maskValue|maskSection)$"),
-            (["./plugin/input/k8s"], r"^\(\*MultilineAction\)\.(Do|resetLogBuf)$"),
+            (["./plugin/input/k8s"], r"^(\(\*MultilineAction\)\.(Do|resetLogBuf)|escapedCutLen)$"),
             (["./plugin/action/join", "./pipeline"], r"^\(\*Plugin\)\.(Do|flush|isNextOK)$"),
             (["./plugin/action/convert_utf8_bytes"], r"^\(\*Plugin\)\.convert$"),
             (["./plugin/action/hash/normalize"], r"^(hasPattern|\(\*tokenizer\)\.(nextToken|processOpenBracket|processCloseBracket|processQuotes)|\(\*tokenNormalizer\)\.normalizeByTokenizer)$"),
@@ -376,6 +376,7 @@ prop(
               ("./pipeline", "replay/C13/zz_timeout_wrong_action_test.go", "TestVerifTimeoutGoesToTheWaitingAction"),
               ("./metric", "replay/C13/zz_label_utf8_test.go", "TestVerifLabelValuesFromEventContent"),
               ("./plugin/action/convert_utf8_bytes", "replay/C13/zz_convert_utf8_alias_test.go", "TestVerifConvertedFieldsKeepTheirValues"),
+              ("./plugin/input/k8s", "replay/C13/zz_k8s_cutoff_escape_test.go", "TestVerifK8sCutOffKeepsEscapesWhole"),
               ("./plugin/action/decode", "replay/C13/zz_decode_prefix_test.go", "TestVerifDecodePrefixSurvivesLaterActions"),
               ("./cfg/substitution", "replay/C13/trimto_empty_cutset_test.go", "TestVerifTrimToEmptyCutset")],
     known_canaries=[("./plugin/action/mask", "replay/C17/zz_replay_c17_test.go", "TestVerifReplayC17Order")],
@@ -387,7 +388,7 @@ prop(
         "the modify action's field filters (cut, trim_to, re: results are sub-slices of the value; group indices within the submatch vector) and the match-rule comparison (prefix / suffix cuts). "
         "The processor hands a stream time-out event only to an action that is waiting (busy at its index, or no action is busy), never to the action that merely returned non-pass last - that one would be called with a nil Root. "
         "Metric label values built from event fields are valid UTF-8 after truncateLabels (prometheus panics otherwise). The decode action's unsafe key-name views lie inside the buffer decodeJson returns, and Do keeps exactly that buffer as event.Buf (rule for ByteToStringUnsafe views: inside the live prefix of a buffer that stays the event's). "
-        "Seven fixes (mask tail, k8s multiline, trim_to with an empty cutset, time-out addressed to the wrong action, label values, decode key names, convert_utf8_bytes shared buffer) and one open known finding (mask: nested / out-of-order groups) came out of it."
+        "Eight fixes (mask tail, k8s multiline, trim_to with an empty cutset, time-out addressed to the wrong action, label values, decode key names, convert_utf8_bytes shared buffer, k8s cut-off inside an escape) and one open known finding (mask: nested / out-of-order groups) came out of it."
     ),
     undecided=[
         "the full statement (27 plugins x every accepted configuration x every JSON event, result still well-formed JSON) lives in insane-json's mutable node graph (third-party): not applicable to contracts on file.d code",
